@@ -47,6 +47,10 @@ fn gen_line(r: &mut Rng, g: &SemGen, lang: &str, names: &[NameUse]) -> Expr {
         0 | 1 => time_expr(r, g, names),
         2 | 3 | 4 => { let (zone, off) = g.zone(r); let zone = if r.chance(1, 4) { zone.to_lowercase() } else { zone }; Expr::ToZone { e: b(time_expr(r, g, names)), conn: conn(r), zone, off } }
         5 | 6 => Expr::Bin { l: b(time_expr(r, g, names)), op: *r.pick(&['+', '-']), r: b(dur(r, g, lang)), tight: false },
+        7 if names.len() >= 2 && r.chance(1, 4) => { // two times held in names
+            let n1 = r.pick(names).clone(); let n2 = r.pick(names).clone();
+            Expr::Between { a: b(Expr::Var(g.name_use(r, &n1))), b: b(Expr::Var(g.name_use(r, &n2))) }
+        }
         7 if !names.is_empty() && r.chance(1, 2) => { // a time held in a name against a literal (judged when both were read the same day)
             let nm = r.pick(names).clone(); let v = Expr::Var(g.name_use(r, &nm));
             let z = r.chance(1, 3); let lit = Expr::Lit(Lit::Time(g.time_lit(r, z)));
@@ -106,8 +110,9 @@ impl Check for C11 {
                 continue;
             }
             if r.below(10) < zone_rate {
-                let tz = match r.below(8) { 0 => "NOPE".to_string(), 1 => "QQQQ".to_string(), 2 | 3 => g.zone(&mut r).0, _ => r.pick(&g.zones).0.clone() };
-                events.push(Event { actor: ADMIN, op: Op::Admin(AdminOp::SetTimezone { tz }), clock: ClockScript::Frozen { t } });
+                let (tz, off) = match r.below(8) { 0 => ("NOPE".to_string(), None), 1 => ("QQQQ".to_string(), None), 2 | 3 => { let (z, o) = g.zone(&mut r); (z, Some(o)) } _ => { let (z, o) = r.pick(&g.zones).clone(); (z, Some(o)) } };
+                events.push(Event { actor: ADMIN, op: Op::Admin(AdminOp::SetTimezone { tz: tz.clone() }), clock: ClockScript::Frozen { t } });
+                if let Some(o) = off { if r.chance(1, 3) { if let Some(z2) = g.same_offset_other_spelling(&mut r, &tz, o) { events.push(Event { actor: ADMIN, op: Op::Admin(AdminOp::SetTimezone { tz: z2 }), clock: ClockScript::Frozen { t } }); } } }
                 continue;
             }
             let mut lines: Vec<Line> = Vec::new();
